@@ -1,25 +1,60 @@
 import AcqVerif.Channel.Sys
 /-!
-# M1 — the data path of the runtime as an interleaving model
+# M1 — the data path of the runtime as an interleaving model, in guarded-command form
 
-One state machine per thread (client, and per stream: source, filter, sink), whose states are the
-*parking points* of the real threads on the deterministic scheduler — every synchronisation call
-(`lock_acquire`, `condition_variable_wait` entry, sleeping, re-acquire, `notify_all`, `thread_create`,
-`thread_join`, `clock_sleep_ms`) and every entry of a driver function — and whose transitions
-transcribe the C between two parking points (`source.c`, `sink.c`, `filter.c`, `acquire.c`, the HAL
-wrappers `camera.c`/`storage.c`).  Channels are the byte-level model of `channel.c` (`Channel.Sys`),
-one operation body per step (every body runs under the channel lock).
+One state machine per thread (client, and per stream: source, filter, sink) whose *parking* states
+are the parking points of the real threads on the deterministic scheduler — every synchronisation
+call (`lock_acquire`, `condition_variable_wait` entry, sleeping, re-acquire, `notify_all`,
+`thread_create`, `thread_join`, `clock_sleep_ms`) and every entry of a driver function — and whose
+transitions transcribe the C between two parking points (`source.c`, `sink.c`, `filter.c`,
+`acquire.c`, the HAL wrappers `camera.c`/`storage.c`).
 
-Devices are the scripted mock driver of the harness (frames identified by `(run, hw index)`, faults at
-scripted call indices).  `sinkFrames` is ghost state: which frame occupies which bytes of the stream
-committed to `sink.in`.
+A thread program is a list of **actions** `(guard, update, output)`.  One scheduler step of a thread
+fires the enabled action at its parking point and then keeps firing actions while the thread is at a
+*transient* program counter (the places where the C takes a decision — loop tests, error exits —
+without reaching a synchronisation call), so every update is a plain record update.
+Channels are the byte-level model of `channel.c` (`Channel.Sys`), one operation body per action
+(every body runs under the channel lock).
 
-Scope of this model: frame averaging off (the filter thread runs, polls and forwards the stop signal),
-software trigger off, write delay 0.  Configuration / init / shutdown are not stepped: the state is
-(re)loaded at `acquire_start`.
+Devices are the scripted mock driver of the harness (frames identified by `(run, hw index)`, faults
+at scripted call indices).  `sinkFrames` is ghost state: which frame occupies which bytes of the
+stream committed to `sink.in`.
+
+Scope: frame averaging off (the filter thread runs, polls and forwards the stop signal), software
+trigger off, write delay 0.  Init / shutdown are not stepped; `acquire_configure` with the same
+devices is.
 -/
 namespace AcqVerif.Runtime
 open AcqVerif.Channel
+
+/-! ## guarded commands -/
+
+structure Act (σ : Type) where
+  name : String
+  guard : σ → Bool
+  upd : σ → σ
+  out : σ → List String := fun _ => []
+
+/-- fire the first enabled action -/
+def fire {σ : Type} (acts : List (Act σ)) (x : σ) : Option (σ × List String) :=
+  (acts.find? (·.guard x)).map fun a => (a.upd x, a.out x)
+
+/-- keep firing while the thread is at a transient program counter -/
+def settleT {σ : Type} (acts : List (Act σ)) (parked : σ → Bool) : Nat → σ × List String → σ × List String
+  | 0, r => r
+  | n + 1, (y, o) =>
+    if parked y then (y, o) else
+    match fire acts y with
+    | none => (y, o)
+    | some (z, o') => settleT acts parked n (z, o ++ o')
+
+/-- one scheduler step of a thread; `none` = not enabled -/
+def stepThread {σ : Type} (acts : List (Act σ)) (parked : σ → Bool) (fuel : Nat) (x : σ) : Option (σ × List String) :=
+  match fire acts x with
+  | none => none
+  | some r => some (settleT acts parked fuel r)
+
+/-! ## state -/
 
 inductive DevState where
   | closed | awaiting | armed | running
@@ -46,7 +81,8 @@ structure Cam where
   failAt : Option Nat := none -- call index (of run 1) at which `get_frame` fails
   failPersistent : Bool := false
   emptyEvery : Nat := 0       -- every n-th call returns 0 bytes
-  drvStops : Nat := 0         -- driver `stop` calls (ghost)
+  drvStarts : Nat := 0        -- driver `start` / `stop` calls (ghost)
+  drvStops : Nat := 0
 deriving Repr, Inhabited
 
 /-- HAL storage + mock storage device -/
@@ -58,11 +94,13 @@ structure Sto where
   failPersistent : Bool := false
   failed : Bool := false
   log : List Frame := []      -- frames stored in the current run (ghost, = what the mock records)
+  appendsAfterFailure : Nat := 0   -- ghost: appends that reached the driver after a failed one
 deriving Repr, Inhabited
 
 inductive SrcPc where
   | start | getShape | wmapLock | wmapWait | wmapAsleep | wmapWoken | getFrame
   | abortLock | commitLock | failStop | camStop | done
+  | loopTest | afterMap | finalize                  -- transient
 deriving DecidableEq, Repr, Inhabited
 
 structure Src where
@@ -74,6 +112,7 @@ deriving Repr, Inhabited
 inductive SnkPc where
   | start | rmapLock | rmapNotify | append | runmapLock | runmapNotify | sleep | stoStop
   | errAccLock | errAccNotify | errUnmapLock | errUnmapNotify | done
+  | loopTest | afterMap | error | errAfterAcc | exit        -- transient
 deriving DecidableEq, Repr, Inhabited
 
 structure Snk where
@@ -85,11 +124,13 @@ deriving Repr, Inhabited
 
 inductive FltPc where
   | start | rmapLock | rmapNotify | sleep | done
+  | loopTest | afterRead                             -- transient
 deriving DecidableEq, Repr, Inhabited
 
 structure Flt where
   pc : FltPc := .start
   flush : Bool := false
+  nread : Nat := 0
 deriving Repr, Inhabited
 
 inductive Role where
@@ -116,67 +157,25 @@ structure Stream where
   src : Src := {}
   flt : Flt := {}
   snk : Snk := {}
-  -- thread liveness (created and not yet finished) and tids, in creation order sink, filter, source
   tidSnk : Nat := 0
   tidFlt : Nat := 0
   tidSrc : Nat := 0
 deriving Repr, Inhabited
 
-/-- client (API) operations of the data path -/
-inductive COp where
-  | start | stop | abort
-  | map (s : Nat) | unmap (s : Nat) (nframes : Option Nat)
-  | state | monwait (s : Nat) | sleep (n : Nat)
-  | configure (n0 n1 : Nat)     -- acquire_configure with the same devices and shapes; new frame counts
-deriving DecidableEq, Repr, Inhabited
-
-/-- parking points of the client thread inside the current API call -/
-inductive CPc where
-  | idle                                   -- between API calls (the harness runs without yielding)
-  -- acquire_start, stream s
-  | stoStart (s : Nat) | accLock (s : Nat) (v : Bool) (next : Nat) | accNotify (s : Nat) (next : Nat)
-  | createSnk (s : Nat) | createFlt (s : Nat) | camStart (s : Nat) | createSrc (s : Nat)
-  | errCamStop (s : Nat)                    -- acquire_start's error path: camera_stop of stream s
-  -- acquire_configure, stream s
-  | cfgCamSet (s : Nat) | cfgStoSet (s : Nat) | cfgGetShape (s : Nat)
-  -- acquire_stop, stream s
-  | joinSrc (s : Nat) | joinFlt (s : Nat) | joinSnk (s : Nat)
-  | flushRmapLock (s : Nat) (r : Nat) | flushRmapNotify (s : Nat) (r : Nat)
-  | flushUnmapLock (s : Nat) (r : Nat) (pre : Bool) | flushUnmapNotify (s : Nat) (r : Nat) (pre : Bool)
-  -- acquire_map_read / acquire_unmap_read
-  | mapLock (s : Nat) | mapNotify (s : Nat) | unmapLock (s : Nat) (k : Nat) | unmapNotify (s : Nat)
-  | sleeping (n : Nat)
-  | done
-deriving DecidableEq, Repr, Inhabited
-
-structure Client where
-  pc : CPc := .idle
-  prog : List COp := []
-  aborting : Bool := false     -- the current acquire_stop was entered from acquire_abort
-  monLen : List Nat := [0, 0]  -- length of the region the client has mapped, per stream (ghost)
-  flushLen : Nat := 0
-  inMonwait : Bool := false
-  pendingSay : String := ""    -- line the harness prints when the current call returns
-  startFailed : Bool := false  -- the current acquire_stop was entered from acquire_start's error path
-  cfgN : List Nat := [0, 0]    -- frame counts of the configure call in progress
-deriving Repr, Inhabited
-
-structure RT where
-  streams : List Stream := [{}, {}]
-  client : Client := {}
-  nthreads : Nat := 1          -- tids handed out so far (client = 0)
-  state : DevState := .armed   -- `runtime.state`
-  out : List String := []      -- API / DRV lines produced by the last step (for the correspondence)
-deriving Repr, Inhabited
-
 /-! ## helpers -/
 
-def getS (rt : RT) (s : Nat) : Stream := rt.streams.getD s {}
-def setS (rt : RT) (s : Nat) (st : Stream) : RT := { rt with streams := rt.streams.set s st }
-def say (rt : RT) (l : String) : RT := { rt with out := rt.out ++ [l] }
-
-/-- run one channel operation body -/
 def chanOp (c : Sys) (op : Op) : Sys × Out := step c op
+
+/-- length / status of the region a read returned -/
+def outLen : Out → Nat
+  | .slice _ len _ => len
+  | _ => 0
+def outStatus : Out → Nat
+  | .slice _ _ st => st
+  | _ => 1
+def isWok : Out → Bool
+  | .wok _ => true
+  | _ => false
 
 /-- did `channel_read_map` move the reader's bookmark (then it notifies)? -/
 def moved (before after : Sys) : Bool := decide (before.c.holds ≠ after.c.holds)
@@ -185,193 +184,194 @@ def moved (before after : Sys) : Bool := decide (before.c.holds ≠ after.c.hold
 def framesIn (fs : List (Nat × Frame)) (idx len : Nat) : List Frame :=
   (fs.filter fun p => decide (idx ≤ p.1 ∧ p.1 < idx + len)).map (·.2)
 
-/-- `condition_variable_notify_all` on `sink.in`: a writer asleep in `channel_write_map` is woken -/
-def notifySink (st : Stream) : Stream :=
-  if st.src.pc = .wmapAsleep then { st with src := { st.src with pc := .wmapWoken } } else st
+/-- does the scripted fault hit this call? (faults are scripted for the first run only) -/
+def faultHits (failAt : Option Nat) (run call : Nat) (again : Bool) : Bool :=
+  match failAt with
+  | some k => run == 1 && decide (call ≥ k) && (again || call == k)
+  | none => false
 
-/-! ## the source thread (`video_source_thread`) -/
-
-/-- the loop test and what follows it up to the next parking point -/
-def srcLoop (st : Stream) : Stream × List String :=
-  if !st.srcStopping && decide (st.src.iframe < st.maxFrames) then
-    ({ st with src := { st.src with pc := .getShape } }, [])
-  else
-    -- Finalize: stop the filter, stop the camera
-    let st := { st with fltStopping := true }
-    if st.cam.state = .running then ({ st with src := { st.src with pc := .camStop } }, [])
-    else ({ st with srcStopping := false, srcRunning := false, src := { st.src with pc := .done } }, [])
-
-/-- error exit (`goto Error`): Finalize with the camera possibly already stopped -/
-def srcFinalize (st : Stream) : Stream × List String :=
-  let st := { st with fltStopping := true }
-  if st.cam.state = .running then ({ st with src := { st.src with pc := .camStop } }, [])
-  else ({ st with srcStopping := false, srcRunning := false, src := { st.src with pc := .done } }, [])
-
-/-- after `channel_write_map` returned a region: `camera_get_frame` up to the mock's entry -/
-def srcAfterMap (st : Stream) : Stream × List String :=
-  if st.cam.state = .running then ({ st with src := { st.src with pc := .getFrame } }, [])
-  else srcFinalize st     -- CHECK(self->state == Running) fails in the HAL
+/-- ghost: the frame whose bytes were just committed -/
+def addFrame (fs : List (Nat × Frame)) (total0 total1 : Nat) (cur : Option Frame) : List (Nat × Frame) :=
+  match cur with
+  | some fr => if total1 > total0 then fs ++ [(total0, fr)] else fs
+  | none => fs
 
 def camDev (s : Nat) : Nat := s          -- mock device ids: camera of stream s
 def stoDev (s : Nat) : Nat := s + 2      -- storage of stream s
 
-/-- the body of `channel_write_map` on `sink.in` and what follows -/
-def srcWmapBody (st : Stream) : Stream × List String :=
-  match chanOp st.sinkCh (.wmap st.F) with
-  | (_, .wblock) => ({ st with src := { st.src with pc := .wmapWait } }, [])
-  | (c', .wok _) => srcAfterMap { st with sinkCh := c' }
-  | (c', _) => srcLoop { st with sinkCh := c' }        -- refused: `if (im)` is false
+/-- `condition_variable_notify_all` on `sink.in`: a writer asleep in `channel_write_map` is woken -/
+def notifySink (st : Stream) : Stream :=
+  { st with src := { st.src with pc := if st.src.pc = .wmapAsleep then .wmapWoken else st.src.pc } }
 
-def srcStep (s : Nat) (st : Stream) : Option (Stream × List String) :=
-  match st.src.pc with
-  | .start => some (srcLoop st)
-  | .getShape =>
-    -- shape, sizes; `channel_write_map` returns 0 without the lock for a frame ≥ capacity
-    if st.F ≥ st.sinkCh.c.cap then some (srcLoop st)
-    else some ({ st with src := { st.src with pc := .wmapLock } }, [])
-  | .wmapLock => some (srcWmapBody st)
-  | .wmapWoken => some (srcWmapBody st)
-  | .wmapWait => some ({ st with src := { st.src with pc := .wmapAsleep } }, [])
-  | .wmapAsleep => none
-  | .getFrame =>
-    let cam := st.cam
-    let call := cam.ncalls
-    let cam := { cam with ncalls := call + 1 }
-    let fails := match cam.failAt with
-      | some k => cam.run == 1 && (decide (call ≥ k)) && (cam.failPersistent || call == k)
-      | none => false
-    if fails then
-      -- HAL: camera_stop (driver stop), state := AwaitingConfiguration; source: goto Error
-      some ({ st with cam := cam, src := { st.src with pc := .failStop } },
-            [s!"DRV {camDev s} get_frame call={call} -> err"])
-    else if cam.emptyEvery > 0 && call % cam.emptyEvery == cam.emptyEvery - 1 then
-      some ({ st with cam := cam, src := { st.src with pc := .abortLock } },
-            [s!"DRV {camDev s} get_frame call={call} -> ok empty"])
-    else
-      let fr : Frame := { run := cam.run, id := st.src.iframe, hw := cam.frame }
-      some ({ st with cam := { cam with frame := cam.frame + 1 },
-                      src := { st.src with pc := .commitLock, cur := some fr, iframe := st.src.iframe + 1 } },
-            [s!"DRV {camDev s} get_frame call={call} -> ok frame={cam.frame} run={cam.run}"])
-  | .failStop =>
-    -- the mock's `stop` called from `camera_get_frame`'s failure path
-    let st := { st with cam := { st.cam with state := .awaiting, drvStops := st.cam.drvStops + 1 } }
-    let (st, o) := srcFinalize st
-    some (st, s!"DRV {camDev s} stop -> ok" :: o)
-  | .abortLock =>
-    let (c', _) := chanOp st.sinkCh .wabort
-    some ({ st with sinkCh := c', src := { st.src with pc := .commitLock, cur := none } }, [])
-  | .commitLock =>
-    let total0 := st.sinkCh.total
-    let (c', _) := chanOp st.sinkCh .wcommit
-    let fs := match st.src.cur with
-      | some fr => if c'.total > total0 then st.sinkFrames ++ [(total0, fr)] else st.sinkFrames
-      | none => st.sinkFrames
-    some (srcLoop { st with sinkCh := c', sinkFrames := fs, src := { st.src with cur := none } })
-  | .camStop =>
-    some ({ st with cam := { st.cam with state := .armed, drvStops := st.cam.drvStops + 1 },
-                    srcStopping := false, srcRunning := false, src := { st.src with pc := .done } },
-          [s!"DRV {camDev s} stop -> ok"])
-  | .done => none
+/-- the lock of `sink.in` is held across steps only by a writer parked at the entry of `condition_variable_wait` -/
+def sinkLockFree (st : Stream) : Bool := st.src.pc ≠ .wmapWait
+
+/-! ## the source thread (`video_source_thread`) -/
+
+def srcCont (st : Stream) : Bool := !st.srcStopping && decide (st.src.iframe < st.maxFrames)
+def setSrcPc (st : Stream) (pc : SrcPc) : Stream := { st with src := { st.src with pc := pc } }
+def wmapOut (st : Stream) : Out := (chanOp st.sinkCh (.wmap st.F)).2
+def wmapSys (st : Stream) : Sys := (chanOp st.sinkCh (.wmap st.F)).1
+def atWmap (st : Stream) : Bool := st.src.pc = .wmapLock || st.src.pc = .wmapWoken
+def camFault (st : Stream) : Bool := faultHits st.cam.failAt st.cam.run st.cam.ncalls st.cam.failPersistent
+def camEmpty (st : Stream) : Bool :=
+  decide (st.cam.emptyEvery > 0) && st.cam.ncalls % st.cam.emptyEvery == st.cam.emptyEvery - 1
+
+def srcActs (s : Nat) : List (Act Stream) := [
+  { name := "src.start", guard := fun st => st.src.pc = .start, upd := fun st => setSrcPc st .loopTest },
+  -- the loop test `!is_stopping && iframe < max_frame_count`
+  { name := "src.loop.cont", guard := fun st => st.src.pc = .loopTest && srcCont st, upd := fun st => setSrcPc st .getShape },
+  { name := "src.loop.exit", guard := fun st => st.src.pc = .loopTest && !srcCont st, upd := fun st => setSrcPc st .finalize },
+  -- Finalize: stop the filter; stop the camera (a driver call only while the HAL state is Running)
+  { name := "src.fin.stop", guard := fun st => st.src.pc = .finalize && st.cam.state = .running,
+    upd := fun st => { st with fltStopping := true, src := { st.src with pc := .camStop } } },
+  { name := "src.fin.done", guard := fun st => st.src.pc = .finalize && st.cam.state ≠ .running,
+    upd := fun st => { st with fltStopping := true, srcStopping := false, srcRunning := false, src := { st.src with pc := .done } } },
+  -- camera_get_image_shape; `channel_write_map` returns 0 without the lock for a frame ≥ capacity
+  { name := "src.shape.big", guard := fun st => st.src.pc = .getShape && decide (st.F ≥ st.sinkCh.c.cap),
+    upd := fun st => setSrcPc st .loopTest },
+  { name := "src.shape.ok", guard := fun st => st.src.pc = .getShape && decide (st.F < st.sinkCh.c.cap),
+    upd := fun st => setSrcPc st .wmapLock },
+  -- the body of `channel_write_map` (first attempt, or after a wake-up)
+  { name := "src.wmap.block", guard := fun st => atWmap st && sinkLockFree st && wmapOut st = .wblock,
+    upd := fun st => setSrcPc st .wmapWait },
+  { name := "src.wmap.ok", guard := fun st => atWmap st && sinkLockFree st && isWok (wmapOut st),
+    upd := fun st => { st with sinkCh := wmapSys st, src := { st.src with pc := .afterMap } } },
+  { name := "src.wmap.refused", guard := fun st => atWmap st && sinkLockFree st && wmapOut st ≠ .wblock && !isWok (wmapOut st),
+    upd := fun st => { st with sinkCh := wmapSys st, src := { st.src with pc := .loopTest } } },
+  { name := "src.wait", guard := fun st => st.src.pc = .wmapWait, upd := fun st => setSrcPc st .wmapAsleep },
+  -- camera_get_frame: the HAL checks its state before calling the driver
+  { name := "src.map.frame", guard := fun st => st.src.pc = .afterMap && st.cam.state = .running, upd := fun st => setSrcPc st .getFrame },
+  { name := "src.map.notrunning", guard := fun st => st.src.pc = .afterMap && st.cam.state ≠ .running, upd := fun st => setSrcPc st .finalize },
+  { name := "src.frame.fault", guard := fun st => st.src.pc = .getFrame && camFault st,
+    upd := fun st => { st with cam := { st.cam with ncalls := st.cam.ncalls + 1 }, src := { st.src with pc := .failStop } },
+    out := fun st => [s!"DRV {camDev s} get_frame call={st.cam.ncalls} -> err"] },
+  { name := "src.frame.empty", guard := fun st => st.src.pc = .getFrame && !camFault st && camEmpty st,
+    upd := fun st => { st with cam := { st.cam with ncalls := st.cam.ncalls + 1 }, src := { st.src with pc := .abortLock } },
+    out := fun st => [s!"DRV {camDev s} get_frame call={st.cam.ncalls} -> ok empty"] },
+  { name := "src.frame.ok", guard := fun st => st.src.pc = .getFrame && !camFault st && !camEmpty st,
+    upd := fun st => { st with cam := { st.cam with ncalls := st.cam.ncalls + 1, frame := st.cam.frame + 1 },
+                               src := { pc := .commitLock, cur := some { run := st.cam.run, id := st.src.iframe, hw := st.cam.frame },
+                                        iframe := st.src.iframe + 1 } },
+    out := fun st => [s!"DRV {camDev s} get_frame call={st.cam.ncalls} -> ok frame={st.cam.frame} run={st.cam.run}"] },
+  -- the driver's `stop` called from camera_get_frame's failure path; then `goto Error`
+  { name := "src.failstop", guard := fun st => st.src.pc = .failStop,
+    upd := fun st => { st with cam := { st.cam with state := .awaiting, drvStops := st.cam.drvStops + 1 }, src := { st.src with pc := .finalize } },
+    out := fun _ => [s!"DRV {camDev s} stop -> ok"] },
+  { name := "src.abort", guard := fun st => st.src.pc = .abortLock && sinkLockFree st,
+    upd := fun st => { st with sinkCh := (chanOp st.sinkCh .wabort).1, src := { st.src with pc := .commitLock, cur := none } } },
+  { name := "src.commit", guard := fun st => st.src.pc = .commitLock && sinkLockFree st,
+    upd := fun st => { st with sinkCh := (chanOp st.sinkCh .wcommit).1,
+                               sinkFrames := addFrame st.sinkFrames st.sinkCh.total (chanOp st.sinkCh .wcommit).1.total st.src.cur,
+                               src := { st.src with pc := .loopTest, cur := none } } },
+  { name := "src.camstop", guard := fun st => st.src.pc = .camStop,
+    upd := fun st => { st with cam := { st.cam with state := .armed, drvStops := st.cam.drvStops + 1 },
+                               srcStopping := false, srcRunning := false, src := { st.src with pc := .done } },
+    out := fun _ => [s!"DRV {camDev s} stop -> ok"] }
+]
+
+def srcParked (st : Stream) : Bool :=
+  st.src.pc ≠ .loopTest && st.src.pc ≠ .afterMap && st.src.pc ≠ .finalize
+
+def srcStep (s : Nat) (st : Stream) : Option (Stream × List String) := stepThread (srcActs s) srcParked 4 st
 
 /-! ## the filter thread (`video_filter_thread`, averaging off: it polls and forwards the stop) -/
 
-def fltLoop (st : Stream) : Stream :=
-  if !st.fltStopping then { st with flt := { pc := .rmapLock, flush := false } }
-  else { st with flt := { pc := .rmapLock, flush := true } }
+def setFltPc (st : Stream) (pc : FltPc) : Stream := { st with flt := { st.flt with pc := pc } }
+def fltRead (st : Stream) : Sys × Out := chanOp st.filtCh (.rmap 0)
 
-/-- after `process_data` returned (its read came back with `n` bytes) -/
-def fltAfterRead (st : Stream) (n : Nat) : Stream :=
-  if !st.flt.flush then { st with flt := { st.flt with pc := .sleep } }
-  else if n > 0 then { st with flt := { st.flt with pc := .rmapLock } }
-  else { st with snkStopping := true, fltRunning := false, fltStopping := false, flt := { st.flt with pc := .done } }
+def fltActs : List (Act Stream) := [
+  { name := "flt.start", guard := fun st => st.flt.pc = .start, upd := fun st => setFltPc st .loopTest },
+  { name := "flt.sleep", guard := fun st => st.flt.pc = .sleep, upd := fun st => setFltPc st .loopTest },
+  { name := "flt.loop.main", guard := fun st => st.flt.pc = .loopTest && !st.fltStopping,
+    upd := fun st => { st with flt := { st.flt with pc := .rmapLock, flush := false } } },
+  { name := "flt.loop.flush", guard := fun st => st.flt.pc = .loopTest && st.fltStopping,
+    upd := fun st => { st with flt := { st.flt with pc := .rmapLock, flush := true } } },
+  { name := "flt.read.moved", guard := fun st => st.flt.pc = .rmapLock && moved st.filtCh (fltRead st).1,
+    upd := fun st => { st with filtCh := (fltRead st).1, flt := { st.flt with pc := .rmapNotify, nread := outLen (fltRead st).2 } } },
+  { name := "flt.read", guard := fun st => st.flt.pc = .rmapLock && !moved st.filtCh (fltRead st).1,
+    upd := fun st => { st with filtCh := (fltRead st).1, flt := { st.flt with pc := .afterRead, nread := outLen (fltRead st).2 } } },
+  { name := "flt.notify", guard := fun st => st.flt.pc = .rmapNotify, upd := fun st => setFltPc st .afterRead },
+  -- after process_data: the main loop sleeps; the flush loop reads again until a read comes back empty, then
+  -- the thread exits: stop the sink, clear the flags
+  { name := "flt.after.main", guard := fun st => st.flt.pc = .afterRead && !st.flt.flush, upd := fun st => setFltPc st .sleep },
+  { name := "flt.after.more", guard := fun st => st.flt.pc = .afterRead && st.flt.flush && decide (st.flt.nread > 0),
+    upd := fun st => setFltPc st .rmapLock },
+  { name := "flt.exit", guard := fun st => st.flt.pc = .afterRead && st.flt.flush && decide (st.flt.nread = 0),
+    upd := fun st => { st with snkStopping := true, fltRunning := false, fltStopping := false, flt := { st.flt with pc := .done } } }
+]
 
-def fltStep (st : Stream) : Option Stream :=
-  match st.flt.pc with
-  | .start => some (fltLoop st)
-  | .rmapLock =>
-    let before := st.filtCh
-    let (c', o) := chanOp st.filtCh (.rmap 0)
-    let n := match o with | .slice _ len _ => len | _ => 0
-    let st := { st with filtCh := c' }
-    if moved before c' then some { st with flt := { st.flt with pc := .rmapNotify } }
-    else some (fltAfterRead st n)       -- (with averaging off `filter.in` stays empty: n = 0)
-  | .rmapNotify => some (fltAfterRead st 0)
-  | .sleep => some (fltLoop st)
-  | .done => none
+def fltParked (st : Stream) : Bool := st.flt.pc ≠ .loopTest && st.flt.pc ≠ .afterRead
+def fltStep (st : Stream) : Option (Stream × List String) := stepThread fltActs fltParked 4 st
 
 /-! ## the sink thread (`video_sink_thread`) -/
 
-def snkLoop (st : Stream) : Stream :=
-  if !st.snkStopping && st.sto.state = .running then { st with snk := { st.snk with pc := .rmapLock, flush := false } }
-  else { st with snk := { st.snk with pc := .rmapLock, flush := true } }
+def setSnkPc (st : Stream) (pc : SnkPc) : Stream := { st with snk := { st.snk with pc := pc } }
+def snkRead (st : Stream) : Sys × Out := chanOp st.sinkCh (.rmap 0)
+def stoFault (st : Stream) : Bool :=
+  faultHits st.sto.failAt st.sto.run st.sto.nappend true && (st.sto.failPersistent || !st.sto.failed)
+def snkFrames (st : Stream) : List Frame := framesIn st.sinkFrames st.snk.idx st.snk.len
 
-/-- after `channel_read_map` (and its notify, if any): split at the write delay (0), `storage_append` -/
-def snkAfterMap (st : Stream) : Stream :=
-  if st.snk.len > 0 then
-    -- the HAL calls the driver only while Running
-    if st.sto.state = .running then { st with snk := { st.snk with pc := .append } }
-    else { st with srcStopping := true, snk := { st.snk with pc := .errAccLock } }   -- Error: sig_stop_source
-  else
-    -- empty packet: no driver call, nothing to unmap
-    if st.sto.state ≠ .running then { st with srcStopping := true, snk := { st.snk with pc := .errAccLock } }
-    else if st.snk.flush then { st with snk := { st.snk with pc := .stoStop } }
-    else { st with snk := { st.snk with pc := .sleep } }
+def snkActs (s : Nat) : List (Act Stream) := [
+  { name := "snk.start", guard := fun st => st.snk.pc = .start, upd := fun st => setSnkPc st .loopTest },
+  { name := "snk.sleep", guard := fun st => st.snk.pc = .sleep, upd := fun st => setSnkPc st .loopTest },
+  -- `while (!is_stopping && storage && storage_get_state(storage) == Running)`
+  { name := "snk.loop.main", guard := fun st => st.snk.pc = .loopTest && (!st.snkStopping && st.sto.state = .running),
+    upd := fun st => { st with snk := { st.snk with pc := .rmapLock, flush := false } } },
+  { name := "snk.loop.flush", guard := fun st => st.snk.pc = .loopTest && !(!st.snkStopping && st.sto.state = .running),
+    upd := fun st => { st with snk := { st.snk with pc := .rmapLock, flush := true } } },
+  { name := "snk.read.moved", guard := fun st => st.snk.pc = .rmapLock && sinkLockFree st && moved st.sinkCh (snkRead st).1,
+    upd := fun st => { st with sinkCh := (snkRead st).1,
+                               snk := { st.snk with pc := .rmapNotify, idx := st.sinkCh.idx.getD 0 0, len := outLen (snkRead st).2 } } },
+  { name := "snk.read", guard := fun st => st.snk.pc = .rmapLock && sinkLockFree st && !moved st.sinkCh (snkRead st).1,
+    upd := fun st => { st with sinkCh := (snkRead st).1,
+                               snk := { st.snk with pc := .afterMap, idx := st.sinkCh.idx.getD 0 0, len := outLen (snkRead st).2 } } },
+  { name := "snk.read.notify", guard := fun st => st.snk.pc = .rmapNotify, upd := fun st => setSnkPc (notifySink st) .afterMap },
+  -- storage_append: the HAL refuses unless Running; an empty packet does not reach the driver
+  { name := "snk.map.notrunning", guard := fun st => st.snk.pc = .afterMap && st.sto.state ≠ .running, upd := fun st => setSnkPc st .error },
+  { name := "snk.map.append", guard := fun st => st.snk.pc = .afterMap && st.sto.state = .running && decide (st.snk.len > 0),
+    upd := fun st => setSnkPc st .append },
+  { name := "snk.map.empty.main", guard := fun st => st.snk.pc = .afterMap && st.sto.state = .running && decide (st.snk.len = 0) && !st.snk.flush,
+    upd := fun st => setSnkPc st .sleep },
+  { name := "snk.map.empty.flush", guard := fun st => st.snk.pc = .afterMap && st.sto.state = .running && decide (st.snk.len = 0) && st.snk.flush,
+    upd := fun st => setSnkPc st .stoStop },
+  { name := "snk.append.fault", guard := fun st => st.snk.pc = .append && stoFault st,
+    upd := fun st => { st with sto := { st.sto with nappend := st.sto.nappend + 1, failed := true, state := .armed,
+                                                      appendsAfterFailure := st.sto.appendsAfterFailure + (if st.sto.failed then 1 else 0) },
+                               snk := { st.snk with pc := .error } },
+    out := fun st => [s!"DRV {stoDev s} append call={st.sto.nappend} bytes={st.snk.len} frames={(snkFrames st).length} -> armed (fault)"] },
+  { name := "snk.append.ok", guard := fun st => st.snk.pc = .append && !stoFault st,
+    upd := fun st => { st with sto := { st.sto with nappend := st.sto.nappend + 1, log := st.sto.log ++ snkFrames st,
+                                                      appendsAfterFailure := st.sto.appendsAfterFailure + (if st.sto.failed then 1 else 0) },
+                               snk := { st.snk with pc := .runmapLock } },
+    out := fun st => [s!"DRV {stoDev s} append call={st.sto.nappend} bytes={st.snk.len} frames={(snkFrames st).length} -> running"] },
+  { name := "snk.unmap", guard := fun st => st.snk.pc = .runmapLock && sinkLockFree st,
+    upd := fun st => { st with sinkCh := (chanOp st.sinkCh (.runmap 0 st.snk.len)).1, snk := { st.snk with pc := .runmapNotify } } },
+  -- `while (slice.end > slice.beg)`: the slice was not empty, read again (main and flush loop alike)
+  { name := "snk.unmap.notify", guard := fun st => st.snk.pc = .runmapNotify, upd := fun st => setSnkPc (notifySink st) .rmapLock },
+  { name := "snk.stostop", guard := fun st => st.snk.pc = .stoStop,
+    upd := fun st => { st with sto := { st.sto with state := .armed }, snk := { st.snk with pc := .exit } },
+    out := fun _ => [s!"DRV {stoDev s} stop -> armed"] },
+  -- Error: signal the source, refuse writes, release the region, storage_stop (no driver call: not Running)
+  { name := "snk.error", guard := fun st => st.snk.pc = .error,
+    upd := fun st => { st with srcStopping := true, snk := { st.snk with pc := .errAccLock } } },
+  { name := "snk.err.acc", guard := fun st => st.snk.pc = .errAccLock && sinkLockFree st,
+    upd := fun st => { st with sinkCh := (chanOp st.sinkCh (.accept false)).1, snk := { st.snk with pc := .errAccNotify } } },
+  { name := "snk.err.acc.notify", guard := fun st => st.snk.pc = .errAccNotify, upd := fun st => setSnkPc (notifySink st) .errAfterAcc },
+  { name := "snk.err.mapped", guard := fun st => st.snk.pc = .errAfterAcc && (st.sinkCh.rds.getD 0 {}).mapped,
+    upd := fun st => setSnkPc st .errUnmapLock },
+  { name := "snk.err.unmapped", guard := fun st => st.snk.pc = .errAfterAcc && !(st.sinkCh.rds.getD 0 {}).mapped,
+    upd := fun st => setSnkPc st .exit },
+  { name := "snk.err.unmap", guard := fun st => st.snk.pc = .errUnmapLock && sinkLockFree st,
+    upd := fun st => { st with sinkCh := (chanOp st.sinkCh (.runmap 0 0)).1, snk := { st.snk with pc := .errUnmapNotify } } },
+  { name := "snk.err.unmap.notify", guard := fun st => st.snk.pc = .errUnmapNotify, upd := fun st => setSnkPc (notifySink st) .exit },
+  { name := "snk.exit", guard := fun st => st.snk.pc = .exit,
+    upd := fun st => { st with snkRunning := false, snkStopping := false, snk := { st.snk with pc := .done } } }
+]
 
-def snkStep (s : Nat) (st : Stream) : Option (Stream × List String) :=
-  match st.snk.pc with
-  | .start => some (snkLoop st, [])
-  | .sleep => some (snkLoop st, [])
-  | .rmapLock =>
-    let before := st.sinkCh
-    let idx := before.idx.getD 0 0
-    let (c', o) := chanOp st.sinkCh (.rmap 0)
-    let len := match o with | .slice _ len _ => len | _ => 0
-    let st := { st with sinkCh := c', snk := { st.snk with idx := idx, len := len } }
-    if moved before c' then some ({ st with snk := { st.snk with pc := .rmapNotify } }, [])
-    else some (snkAfterMap st, [])
-  | .rmapNotify => some (snkAfterMap (notifySink st), [])
-  | .append =>
-    let sto := st.sto
-    let call := sto.nappend
-    let frames := framesIn st.sinkFrames st.snk.idx st.snk.len
-    let fails := match sto.failAt with
-      | some k => sto.run == 1 && decide (call ≥ k) && (sto.failPersistent || !sto.failed)
-      | none => false
-    if fails then
-      some ({ st with sto := { sto with nappend := call + 1, failed := true, state := .armed },
-                      srcStopping := true,       -- sig_stop_source
-                      snk := { st.snk with pc := .errAccLock } },
-            [s!"DRV {stoDev s} append call={call} bytes={st.snk.len} frames={frames.length} -> armed (fault)"])
-    else
-      some ({ st with sto := { sto with nappend := call + 1, log := sto.log ++ frames },
-                      snk := { st.snk with pc := .runmapLock } },
-            [s!"DRV {stoDev s} append call={call} bytes={st.snk.len} frames={frames.length} -> running"])
-  | .runmapLock =>
-    let (c', _) := chanOp st.sinkCh (.runmap 0 st.snk.len)
-    some ({ st with sinkCh := c', snk := { st.snk with pc := .runmapNotify } }, [])
-  | .runmapNotify =>
-    -- `while (slice.end > slice.beg)`: the slice was not empty, read again (main and flush loop alike)
-    let st := notifySink st
-    some ({ st with snk := { st.snk with pc := .rmapLock } }, [])
-  | .stoStop =>
-    some ({ st with sto := { st.sto with state := .armed }, snkRunning := false, snkStopping := false,
-                    snk := { st.snk with pc := .done } },
-          [s!"DRV {stoDev s} stop -> armed"])
-  | .errAccLock =>
-    let (c', _) := chanOp st.sinkCh (.accept false)
-    some ({ st with sinkCh := c', snk := { st.snk with pc := .errAccNotify } }, [])
-  | .errAccNotify =>
-    -- `channel_read_unmap(.., 0)`: only if a region is mapped
-    let st := notifySink st
-    if (st.sinkCh.rds.getD 0 {}).mapped then some ({ st with snk := { st.snk with pc := .errUnmapLock } }, [])
-    else some ({ st with snkRunning := false, snkStopping := false, snk := { st.snk with pc := .done } }, [])
-  | .errUnmapLock =>
-    let (c', _) := chanOp st.sinkCh (.runmap 0 0)
-    some ({ st with sinkCh := c', snk := { st.snk with pc := .errUnmapNotify } }, [])
-  | .errUnmapNotify =>
-    -- storage_stop: the HAL state is not Running any more, no driver call
-    let st := notifySink st
-    some ({ st with snkRunning := false, snkStopping := false, snk := { st.snk with pc := .done } }, [])
-  | .done => none
+def snkParked (st : Stream) : Bool :=
+  st.snk.pc ≠ .loopTest && st.snk.pc ≠ .afterMap && st.snk.pc ≠ .error && st.snk.pc ≠ .errAfterAcc && st.snk.pc ≠ .exit
+
+def snkStep (s : Nat) (st : Stream) : Option (Stream × List String) := stepThread (snkActs s) snkParked 4 st
 
 end AcqVerif.Runtime
